@@ -171,6 +171,11 @@ pub enum Obj {
     Sop(SB),
     Esop(XB),
     Soes(OB),
+    /// forms over all 32 variables built by from_cubes: the only size at which contradictory
+    /// (zero) cubes are legal arguments of from_cubes
+    SopWide(Vec<CB>),
+    EsopWide(Vec<CB>),
+    SoesWide(Vec<EB>),
 }
 
 #[derive(Clone, Debug, Hash, Serialize, Deserialize)]
@@ -189,6 +194,9 @@ fn arb_obj(n: usize) -> BoxedStrategy<(Obj, Obj)> {
         3 => (arb_sb(std::cmp::min(n, 12), 2), Just(SB::Zero)).prop_map(|(a, b)| (Obj::Sop(a), Obj::Sop(b))),
         3 => (arb_xb(std::cmp::min(n, 12)), Just(XB::Zero)).prop_map(|(a, b)| (Obj::Esop(a), Obj::Esop(b))),
         3 => (arb_ob(std::cmp::min(n, 12), 4), Just(OB::Zero)).prop_map(|(a, b)| (Obj::Soes(a), Obj::Soes(b))),
+        1 => vec(arb_cb(32), 0..=4).prop_map(|v| (Obj::SopWide(v), Obj::Sop(SB::Zero))),
+        1 => vec(arb_cb(32), 0..=4).prop_map(|v| (Obj::EsopWide(v), Obj::Sop(SB::Zero))),
+        1 => vec(arb_eb(32), 0..=4).prop_map(|v| (Obj::SoesWide(v), Obj::Sop(SB::Zero))),
     ]
     .boxed()
 }
@@ -223,6 +231,18 @@ fn render(o: &Obj, n: usize) -> Result<(String, Box<dyn Fn(usize) -> bool>, &'st
             let c = d.build(nn);
             (c.to_string(), Box::new(move |m| c.value(m)), "soes")
         }
+        Obj::SopWide(v) => {
+            let c = volute::sop::Sop::from_cubes(32, v.iter().map(|x| x.build()).collect());
+            (c.to_string(), Box::new(move |m| c.value(m)), "sop")
+        }
+        Obj::EsopWide(v) => {
+            let c = volute::sop::Esop::from_cubes(32, v.iter().map(|x| x.build()).collect());
+            (c.to_string(), Box::new(move |m| c.value(m)), "esop")
+        }
+        Obj::SoesWide(v) => {
+            let c = volute::sop::Soes::from_cubes(32, v.iter().map(|x| x.build()).collect());
+            (c.to_string(), Box::new(move |m| c.value(m)), "soes")
+        }
     })
 }
 
@@ -238,7 +258,9 @@ pub fn run(c: &Case) -> Verdict {
     };
     let mut ms: Vec<u32> = c.ms.clone();
     let width = std::cmp::min(c.n, 12);
-    if matches!(c.a, Obj::Cube(_) | Obj::Ecube(_)) {
+    if matches!(c.a, Obj::SopWide(_) | Obj::EsopWide(_) | Obj::SoesWide(_)) {
+        ms.extend([0, !0, 0x5555_5555, 0xaaaa_aaaa]);
+    } else if matches!(c.a, Obj::Cube(_) | Obj::Ecube(_)) {
         if c.n <= 5 {
             ms.extend(0..(1u32 << c.n));
         }
@@ -374,7 +396,7 @@ fn enumerate(t: Tier, shard: usize, nshards: usize, f: &mut dyn FnMut(Case) -> b
 pub fn def() -> PropDef {
     PropDef {
         id: "C16",
-        rule: "cases = (n, object, second object, assignments): a Cube, Ecube, Sop, Esop or Soes built from a build description (every constructor, operator results included; Sop/Esop/Soes over min(n,12) variables, cubes and exclusive cubes over up to 32, full-support objects included, so that two-digit indices and the all-variables boundary occur). to_string() is read by the harness's own tokenizer + parser for `or := xor ('|' xor)*, xor := prod ('^' prod)*, prod := ('0' | '1' | '!'? 'x' digits)+` (white space insignificant) — the text must parse completely — and evaluated on all assignments (<= 8 variables; cubes: n<=5) or on generated 32-bit assignments plus all-zeros/all-ones otherwise, and compared with the object's own value(). Variable indices must be strictly increasing inside each product and inside each XOR term; for cubes and exclusive cubes a == b iff their texts are equal. Non-trivial = the text contains a `!`, a two-digit index or >= 2 terms. Exhaustive: all cubes and exclusive cubes of n<=4 (each paired with itself and three neighbours for the distinct-text check); all Sop/Esop/Soes with <= 3 terms over n<=2 and <= 2 (quick) / <= 3 (thorough) terms over n=3.",
+        rule: "cases = (n, object, second object, assignments): a Cube, Ecube, Sop, Esop or Soes built from a build description (every constructor, operator results included; Sop/Esop/Soes over min(n,12) variables, cubes and exclusive cubes over up to 32, full-support objects included, so that two-digit indices and the all-variables boundary occur). to_string() is read by the harness's own tokenizer + parser for `or := xor ('|' xor)*, xor := prod ('^' prod)*, prod := ('0' | '1' | '!'? 'x' digits)+` (white space insignificant) — the text must parse completely — and evaluated on all assignments (<= 8 variables; cubes: n<=5) or on generated 32-bit assignments plus all-zeros/all-ones otherwise, and compared with the object's own value(). Variable indices must be strictly increasing inside each product and inside each XOR term; for cubes and exclusive cubes a == b iff their texts are equal. Sop/Esop/Soes over all 32 variables built by from_cubes from up to 4 cubes, contradictory cubes included (legal only at that size), are printed and evaluated on generated 32-bit assignments. Non-trivial = the text contains a `!`, a two-digit index or >= 2 terms. Exhaustive: all cubes and exclusive cubes of n<=4 (each paired with itself and three neighbours for the distinct-text check); all Sop/Esop/Soes with <= 3 terms over n<=2 and <= 2 (quick) / <= 3 (thorough) terms over n=3.",
         assumptions: vec!["the `evident grammar` is the one stated in the property; value() of the object is the reference for the meaning"],
         subs: vec![Box::new(Sub {
             name: "display",
